@@ -107,9 +107,7 @@ def gen_spec(rng, n, allow_bad=False):
     ncell = math.prod(n)
     r = rng.random()
     if allow_bad and r < 0.5:
-        m = rng.choice([ncell + 1, ncell + 2, max(2, ncell - 1) if ncell - 1 != ncell and ncell > 2 else ncell + 3, 2 * ncell + 1])
-        if m == ncell or m < 2:
-            m = ncell + 1
+        m = rng.choice([ncell + 1, ncell + 2, 2 * ncell + 1])
         return dict(kind="arr", ts=[S(rng.choice(TVALS)) for _ in range(m)], form="flat_bad")
     if r < 0.3:
         return dict(kind="const", t=S(rng.choice(TVALS)), form=rng.choice(["float", "float", "int_if_possible", "npfloat"]))
@@ -473,7 +471,6 @@ def run_hist(c):
                     rejected = True
                     if not np.array_equal(f.array, before):
                         out.append("rejected-norm-changed-values")
-                        rec["tags"].append("C15-rejected-norm-mutates")
                     break
                 nsetnorm += 1
                 oracle_setnorm(cells_frac(before, k), cells_frac(f.array, k), spec_values(o["spec"], mesh), out)
@@ -576,14 +573,28 @@ def run_intdtype(c):
     obs = dict(status=st)
     if st != "ok":
         rec["oracle"].append("orientation-raised-int-dtype")
-        rec["tags"].append("C15-int-dtype-orientation")
         obs["err"] = r
     else:
         v = [F(x) for x in c["vals"]]
         for o in cells_frac(r, k):
             if scaled_ok(v, o, F(1)):
                 rec["oracle"].append("orientation-not-unit")
-    rec.update(obs=obs, key=f"intdtype/{k}/{st}", size=k)
+        if r.dtype.kind != "f":
+            rec["oracle"].append("orientation-not-floating-point")
+    # assigning a norm to an integer-typed field (known finding: raises UFuncTypeError)
+    before = f.array.copy()
+    st2, r2 = attempt(lambda: setattr(f, "norm", 2 * int(math.isqrt(sum(int(F(x)) ** 2 for x in c["vals"])))))
+    obs["setnorm_status"] = st2
+    if st2 != "ok":
+        rec["oracle"].append("norm-assignment-raised-int-dtype")
+        rec["tags"].append("C15-int-dtype-norm-setter")
+        if not np.array_equal(f.array, before):
+            rec["oracle"].append("rejected-norm-changed-values")
+    else:
+        # target = twice the (integer) length: the exact result 2*v is representable in any dtype
+        if [F(x) for x in f.array.reshape(-1).tolist()] != [2 * F(x) for x in c["vals"]] * 2:
+            rec["oracle"].append("set-norm-length")
+    rec.update(obs=obs, key=f"intdtype/{k}/{st}/{st2}", size=k)
     return rec
 
 
@@ -601,7 +612,6 @@ def run_rejected(c):
         rec["oracle"].append("malformed-norm-accepted")
     elif not obs["unchanged"]:
         rec["oracle"].append("rejected-norm-changed-values")
-        rec["tags"].append("C15-rejected-norm-mutates")
     rec.update(obs=obs, key=f"rejected/{k}/{c['bad']}/{st}", size=k)
     return rec
 
